@@ -1621,7 +1621,10 @@ def join_parts(parts):
 def c13_families(rng, sizes):
     """yield (name, needle_hexexpr, needle_len, hay_hexexpr, hay_len)"""
     for n in sizes:
-        for m in (8, 32, 33, 64, 255, n // 16 if n >= 4096 else 40):
+        # (258..288, 514: lengths that truncate to 2..=32 in a u8; 65536+8: in a u16)
+        for m in (8, 32, 33, 64, 255, 258, 288, 514, 65544, n // 16 if n >= 4096 else 40):
+            if m > n // 2:
+                continue
             m = max(2, min(m, n // 2))
             # 1. a^m in (a^(m-1) b)^r
             unit = "61" * (m - 1) + "62"
@@ -2064,3 +2067,78 @@ def gen_noalloc_finders(rng, tier):
 
 
 _wrap("C16", gen_noalloc_finders)
+
+
+def gen_c12_pairidx(rng, tier):
+    """`Pair::with_indices` + `with_pair` of every finder on the offsets around `needle.len()`"""
+    for L in (1, 2, 3, 5, 17, 40):
+        needle = [0x61 + (i * 3) % 23 for i in range(L)]
+        for i1 in sorted(set([0, 1, L - 1, L, L + 1]) & set(range(256))):
+            for i2 in sorted(set([0, 1, L - 1, L, L + 1]) & set(range(256))):
+                yield ("pairidx %s %d %d" % (hx(needle), i1, i2), dict(family="pairidx"))
+                yield ("pairreport %s %d %d" % (hx(needle), i1, i2), dict(cfg="host", family="pairreport"))
+
+
+_wrap("C12", gen_c12_pairidx)
+
+
+def gen_c18_feature_builds(rng, tier):
+    """the long-operand family also in the builds with other compile-time features (`+avx2`
+    enabled statically, no `std`, no `alloc`)"""
+    ops = list(gen_iseq_long(rng, "quick"))
+    for variant in ("avx2ct", "alloconly", "noalloc"):
+        for op, meta in rng.sample(ops, min(len(ops), 4000)):
+            yield op, dict(meta, cfg=variant, family=meta["family"] + "-" + variant)
+        # every single differing byte of a 200-byte operand (which 64-byte block / which half)
+        x = [rng.randrange(256) for _ in range(200)]
+        for p in range(200):
+            y = list(x)
+            y[p] ^= 0x20
+            yield ("iseq 0 %s 1 %s" % (hx(x), hx(y)), dict(cfg=variant, family="iseq-1diff-" + variant))
+
+
+_wrap("C18", gen_c18_feature_builds)
+
+
+def diverse_needles(rng):
+    """needles whose bytes cover many (all 64) residue classes mod 64 / all 256 values"""
+    out = [list(range(0x40, 0x80)), list(range(0, 64)), list(range(256)), list(range(255, -1, -1)),
+           [(i * 37 + 11) % 256 for i in range(70)], [(i * 101) % 256 for i in range(128)]]
+    for n in (64, 70, 100, 200):
+        out.append([rng.randrange(256) for _ in range(n)])
+    return out
+
+
+def gen_diverse_pairs(rng, tier):
+    for needle in diverse_needles(rng):
+        L = len(needle)
+        for mult in (1, 3, 9, 20):
+            junk = [rng.randrange(256) for _ in range(mult * L)]
+            yield needle, junk + needle + junk[: L // 2]
+            yield needle, junk
+            yield needle, needle[1:] + junk + needle[:-1]
+
+
+def gen_c17_diverse(rng, tier):
+    for needle, hay in gen_diverse_pairs(rng, tier):
+        for (variant, cfg) in MM_CFGS_QUICK[:3]:
+            yield ("finderops %s auto %s f:%s,i:%s" % (cfg, hx(needle), hx(hay), hx(hay)), dict(cfg=variant, family="finderops-diverse"))
+            yield ("finderrevops %s %s f:%s,i:%s" % (cfg, hx(needle), hx(hay), hx(hay)), dict(cfg=variant, family="finderrevops-diverse"))
+        yield ("rfind avx2 %s 3 %s" % (hx(needle), hx(hay)), dict(cfg="notrace", allocs=0, family="noalloc-rfind-diverse"))
+        yield ("oneshot avx2 rev %s 3 %s" % (hx(needle), hx(hay)), dict(cfg="notrace", allocs=0, family="noalloc-oneshot-diverse"))
+        yield ("oneshot avx2 fwd %s 3 %s" % (hx(needle), hx(hay)), dict(cfg="notrace", allocs=0, family="noalloc-oneshot-diverse"))
+
+
+_wrap("C17", gen_c17_diverse)
+
+
+def gen_find_diverse(rng, tier):
+    for needle, hay in gen_diverse_pairs(rng, tier):
+        for (variant, cfg) in MM_CFGS_QUICK[:3]:
+            yield ("find %s auto default 1 0 %s %d %s" % (cfg, hx(needle), rng.randrange(64), hx(hay)),
+                   dict(cfg=variant, family="find-diverse", untraced_widths=MM_UNTRACED[cfg]))
+            yield ("rfind %s %s %d %s" % (cfg, hx(needle), 3, hx(hay)), dict(cfg=variant, family="rfind-diverse", untraced_widths=MM_UNTRACED.get(cfg)))
+
+
+_wrap("C03", gen_find_diverse)
+_wrap("C04", gen_find_diverse)
